@@ -173,6 +173,8 @@ HALPHABET = [
     [dl.ph(1, [dl.po(2, 1, body=2)])],
     [dl.ph(1, [dl.po(2, 1, body=3), dl.po(2, 2)])],
     [dl.ph(1, [dl.po(2, 3)])],                                          # 9
+    [dl.ph(1, [dl.po(1, 1)]), dl.ph(2, [dl.po(2, 2)])],                 # 10: phases [ConfigMap a]; [Widget b]: b's probe fails
+    [dl.ph(1, [dl.po(2, 3)]), dl.ph(2, [dl.po(2, 2)])],                 # 11: phases [Widget c]; [Widget b]
 ]
 
 
@@ -190,7 +192,10 @@ def handover_corpus():
           {"op": "pause", "v": False}, D, S(5), D, S(4), S(4), S(5)]
     w3 = [D, S(6), M(2, 1, 2), S(6), E(7), D, S(7), D, E(8), D, S(8), D, S(6), S(7), E(9), D, S(9), M(2, 3, 2), D, S(8), D,
           M(2, 1, 1), S(7), S(8), S(8), S(6), D, S(6), D, S(6), S(6), S(7)]
-    for t0, steps in ((1, w1), (3, w2), (6, w3)):
+    # no violation in the code as it is: revision 1 fails its probe in its LAST phase and reports [a, b]; revision 2 shares only b, which it
+    # has not reached yet: revision 1 stays (a status.controllerOf without the objects of the failing phase would get it archived)
+    w4 = [D, S(10), D, E(11), D, S(11), D, S(10), D, S(10), S(10), S(11), D]
+    for t0, steps in ((1, w1), (3, w2), (6, w3), (10, w4)):
         sc = dl.scenario(ctx, dl.mk_dep(ctx, t0), [], steps)
         sc["slices"] = []
         out.append((ctx, sc))
